@@ -162,7 +162,7 @@ W.lemma(
              "implies(len(s) == 1, pyq(s[2:]) == '' and ('\\\\\\\\' + pyq(s[2:]))[2:] == '')"],
     fuel=0,
     props=["C18", "C06", "C02"],
-    note="whatever the program's string contains (also a two-character string ending in a backslash), the text between the emitted double quotes has no bare quote, no raw newline and no unpaired backslash: it is one constant and the statement compiles",
+    note="whatever the program's string contains (also a two-character string ending in a backslash), the text between the emitted double quotes has no bare quote, no raw newline and no unpaired backslash: it is at most one constant - and one constant unless it contains a malformed Python escape sequence (\\x, \\u, \\U, \\N cut short: recorded finding of C02), in which case the statement does not compile and nothing runs",
 )
 
 W.lemma(
